@@ -21,6 +21,7 @@ import (
 	"sort"
 	"strconv"
 	"strings"
+	"time"
 
 	"verifharness/lib"
 )
@@ -315,7 +316,22 @@ func runRacer(bin, scPath string, first int, race bool) runResult {
 	cmd.Env = append(os.Environ(), "GORACE=exitcode=0 history_size=2")
 	var so, se bytes.Buffer
 	cmd.Stdout, cmd.Stderr = &so, &se
-	err := cmd.Run()
+	// watchdog: a receiver that no longer answers (a deadlocked channel) would block the racer for ever
+	limit := 240 * time.Second
+	if err := cmd.Start(); err != nil {
+		return runResult{died: "racer does not start: " + err.Error()}
+	}
+	waitCh := make(chan error, 1)
+	go func() { waitCh <- cmd.Wait() }()
+	var err error
+	hung := false
+	select {
+	case err = <-waitCh:
+	case <-time.After(limit):
+		hung = true
+		_ = cmd.Process.Kill()
+		err = <-waitCh
+	}
 	var res runResult
 	sc := bufio.NewScanner(&so)
 	sc.Buffer(make([]byte, 1<<20), 1<<26)
@@ -329,6 +345,10 @@ func runRacer(bin, scPath string, first int, race bool) runResult {
 	}
 	res.stderr = se.String()
 	res.races = parseRaces(res.stderr)
+	if hung {
+		res.died = fmt.Sprintf("hang: the racer did not finish within %v: an upload is never answered or a channel no longer takes messages", limit)
+		return res
+	}
 	if err != nil {
 		msg := "exit: " + err.Error()
 		for _, l := range strings.Split(res.stderr, "\n") {
@@ -412,12 +432,18 @@ func run(c *lib.Ctx) error {
 				cur++
 			}
 		}
+		if i := strings.LastIndex(r.stderr, "@@ scenario "); i >= 0 { // the racer announces every scenario it starts
+			var n int
+			if _, err := fmt.Sscanf(r.stderr[i:], "@@ scenario %d", &n); err == nil && n >= first && n < len(all) {
+				cur = n
+			}
+		}
 		if cur < len(all) {
 			c.Fail(fmt.Sprintf("s%d", cur), "process-died:"+r.died, "the receiver process died during concurrent first uploads: "+r.died, all[cur])
 		}
 		first = cur + 1
-		if deaths > 20 {
-			break
+		if deaths > 20 || strings.HasPrefix(r.died, "hang:") {
+			break // a hang costs the whole watchdog time; it is reported, the remaining scenarios are not run
 		}
 	}
 	// ---- oracle on the outcomes
